@@ -148,6 +148,11 @@ def structured_pairs(s1, s2):
                 b3 = list(b2)
                 b3[i] = b3[i] + mp.mpf(1) / 8
                 out.append((f"b := a re-expressed, coordinate {i} + 1/8", [a, b3] + rest))
+                if s1 == s2 and len(rest) >= 2 and abs(a[i]) != abs(b3[i]):
+                    # tolerances chosen so that the difference lies between rtol*|a_i| and rtol*|b_i|: tells `rtol * |other|` from `rtol * |self|`
+                    rt = (mp.mpf(1) / 8) / ((abs(a[i]) + abs(b3[i])) / 2)
+                    out.append((f"b := a, coordinate {i} + 1/8, rtol between the two relative thresholds", [a, b3, rt, mp.mpf(0)] + rest[2:]))
+                    out.append((f"a := b, coordinate {i} + 1/8, rtol between the two relative thresholds", [b3, a, rt, mp.mpf(0)] + rest[2:]))
         except Exception:
             pass
         try:
